@@ -19,29 +19,34 @@ EXTENDS Naturals, Integers, Sequences, FiniteSets, SequencesExt, FiniteSetsExt, 
 
 KernelName == <<"xor1", "xfrom", "xto", "rsmul", "m8mul", "m4mul", "m4cmp">>     \* KernelName[kid + 1]
 
+(* Tup(n, F) is the sequence << F(1), ..., F(n) >>.  It is the same value as
+   [ i \in 1 .. n |-> F(i) ], written as a fold so that TLC builds the tuple once instead
+   of re-evaluating F at every later application (the trace spec compares whole sequences). *)
+Tup(n, F(_)) == FoldLeft(LAMBDA acc, i : Append(acc, F(i)), << >>, [ i \in 1 .. n |-> i ])
+
 (* ------------------------------------------------ byte-wise definitions *)
-XorSym(d, s) == [ i \in 1 .. Len(d) |-> d[i] ^^ s[i] ]
+XorSym(d, s) == Tup(Len(d), LAMBDA i : d[i] ^^ s[i])
 AddFromMultiple(d, srcs) == FoldLeft(XorSym, d, srcs)
-AddToMultiple(dsts, s) == [ j \in 1 .. Len(dsts) |-> XorSym(dsts[j], s) ]
-AddMul(d, s, c, m) == [ i \in 1 .. Len(d) |-> d[i] ^^ Mul(c, s[i], m) ]
+AddToMultiple(dsts, s) == Tup(Len(dsts), LAMBDA j : XorSym(dsts[j], s))
+AddMul(d, s, c, m) == Tup(Len(d), LAMBDA i : d[i] ^^ Mul(c, s[i], m))
 Hi(b) == b \div 16
 Lo(b) == b % 16
 AddMulCompact(d, s, c) ==
-    [ i \in 1 .. Len(d) |-> 16 * (Hi(d[i]) ^^ Mul(c, Hi(s[i]), 4)) + (Lo(d[i]) ^^ Mul(c, Lo(s[i]), 4)) ]
+    Tup(Len(d), LAMBDA i : 16 * (Hi(d[i]) ^^ Mul(c, Hi(s[i]), 4)) + (Lo(d[i]) ^^ Mul(c, Lo(s[i]), 4)))
 
 (* ------------------------------------------------------ operand contents *)
 (* byte i (0-based) of operand j; sources are operands 0 .. n-1, destinations 32, 33, ... *)
 Byte(p, i, j) == IF p = 0 THEN (37 * i + 11 * j + 5) % 256
                  ELSE ((i + 1) * (j + 3) * 167 + i * i * 13 + 91) % 256
 Content(kid, p, i, j) == IF kid = 5 THEN Byte(p, i, j) % 16 ELSE Byte(p, i, j)
-Sym(kid, p, j, sz) == [ i \in 1 .. sz |-> Content(kid, p, i - 1, j) ]
+Sym(kid, p, j, sz) == Tup(sz, LAMBDA i : Content(kid, p, i - 1, j))
 
 NDst(kid, n) == IF kid = 2 THEN n ELSE 1
 NSrc(kid, n) == IF kid = 1 THEN n ELSE 1
 NBuf(kid, n) == NDst(kid, n) + NSrc(kid, n)        \* buffers are numbered 0 .. NBuf-1: destinations first
 
-Dsts(kid, p, n, sz) == [ d \in 1 .. NDst(kid, n) |-> Sym(kid, p, 32 + d - 1, sz) ]
-Srcs(kid, p, n, sz) == [ s \in 1 .. NSrc(kid, n) |-> Sym(kid, p, s - 1, sz) ]
+Dsts(kid, p, n, sz) == Tup(NDst(kid, n), LAMBDA d : Sym(kid, p, 32 + d - 1, sz))
+Srcs(kid, p, n, sz) == Tup(NSrc(kid, n), LAMBDA s : Sym(kid, p, s - 1, sz))
 
 (* contents of all buffers after the call (sources are unchanged) *)
 ExpectedBufs(kid, sz, n, p, c) ==
@@ -55,30 +60,33 @@ ExpectedBufs(kid, sz, n, p, c) ==
                [] kid = 6 -> << AddMulCompact(D[1], S[1], c) >>
     IN  R \o S
 
-(* manual guard bytes of variant 1 (16 on each side of buffer b) *)
-GuardL(v, b) == IF v = 0 THEN << >> ELSE [ i \in 1 .. 16 |-> (195 + 7 * b + (i - 1)) % 256 ]
-GuardR(v, b) == IF v = 0 THEN << >> ELSE [ i \in 1 .. 16 |-> (60 + 5 * b + 3 * (i - 1)) % 256 ]
+(* manual guard bytes of variant 1 (16 on each side of buffer b = 0 .. 23); constant tables *)
+GuardTabL == Tup(24, LAMBDA b1 : Tup(16, LAMBDA i : (195 + 7 * (b1 - 1) + (i - 1)) % 256))
+GuardTabR == Tup(24, LAMBDA b1 : Tup(16, LAMBDA i : (60 + 5 * (b1 - 1) + 3 * (i - 1)) % 256))
+GuardL(v, b) == IF v = 0 THEN << >> ELSE GuardTabL[b + 1]
+GuardR(v, b) == IF v = 0 THEN << >> ELSE GuardTabR[b + 1]
 
 (* buffers whose bytes the driver must log: every destination; the sources too in
    variant 1 when there are at most two of them *)
 Logged(kid, n, v) ==
-    [ b \in 1 .. NDst(kid, n) |-> b - 1 ] \o
-    (IF v = 1 /\ NSrc(kid, n) <= 2 THEN [ s \in 1 .. NSrc(kid, n) |-> NDst(kid, n) + s - 1 ] ELSE << >>)
+    Tup(NDst(kid, n), LAMBDA b : b - 1) \o
+    (IF v = 1 /\ NSrc(kid, n) <= 2 THEN Tup(NSrc(kid, n), LAMBDA s : NDst(kid, n) + s - 1) ELSE << >>)
 
 (* ------------------------------------------------------------ case space *)
 (* tier "q": sizes 0..40, operand counts 0..9, reduced constants;  "t": sizes 0..80, counts 0..20,
-   every constant of the field.  A group is <<size, n, pattern, c>>.                           *)
+   every constant of the field at every size.  A group is <<size, n, pattern, c>>; every group is
+   run with each offset vector of AlSeq in both variants (exact heap block / guarded).          *)
 MaxSize(tier) == IF tier = "q" THEN 40 ELSE 80
 MaxCount(tier) == IF tier = "q" THEN 9 ELSE 20
 FieldBits(kid) == IF kid \in {5, 6} THEN 4 ELSE 8
 (* constants run over every size and every alignment pair *)
 ConstA(tier, kid) == IF FieldBits(kid) = 8 THEN (IF tier = "q" THEN {0, 1, 142} ELSE {0, 1, 2, 142, 255})
                      ELSE (IF tier = "q" THEN {0, 1, 9} ELSE {0, 1, 2, 9, 15})
-(* constants run over the reduced size set *)
+(* constants run over the size set SizesB (reduced in tier "q", every size in tier "t") with the joint offsets *)
 ConstB(tier, kid) == IF FieldBits(kid) = 8 THEN (IF tier = "q" THEN {2, 3, 29, 83, 128, 202, 255} ELSE 0 .. 255)
                      ELSE (IF tier = "q" THEN {2, 7, 15} ELSE 0 .. 15)
 SizesB(tier) == IF tier = "q" THEN {0, 1, 15, 16, 17, 33, 40}
-                ELSE {0, 1, 7, 8, 15, 16, 17, 31, 32, 33, 47, 48, 49, 64, 65, 80}
+                ELSE 0 .. 80
 
 GroupSet(tier, kid) ==
     LET L == MaxSize(tier)  N == MaxCount(tier)
@@ -90,13 +98,14 @@ GroupSet(tier, kid) ==
 Rank(g) == ((g[1] * 32 + g[2]) * 2 + g[3]) * 256 + g[4]
 
 (* alignment vectors (offset 0..7 of each buffer from an 8-byte boundary), in the order they must be run *)
-AlAll(nb) == [ k \in 1 .. 8 ^ nb |-> [ b \in 1 .. nb |-> ((k - 1) \div (8 ^ (nb - b))) % 8 ] ]
-AlUniform(nb) == [ k \in 1 .. 8 |-> [ b \in 1 .. nb |-> k - 1 ] ]
-AlStagger(nb) == [ k \in 1 .. 8 |-> [ b \in 1 .. nb |-> (k - 1 + b - 1) % 8 ] ]
+AlAll(nb) == Tup(8 ^ nb, LAMBDA k : Tup(nb, LAMBDA b : ((k - 1) \div (8 ^ (nb - b))) % 8))
+AlUniform(nb) == Tup(8, LAMBDA k : Tup(nb, LAMBDA b : k - 1))
+AlStagger(nb) == Tup(8, LAMBDA k : Tup(nb, LAMBDA b : (k - 1 + b - 1) % 8))
 AlJoint(nb) == AlUniform(nb) \o AlStagger(nb)
 
 (* every operand independently for up to 3 buffers (operand counts <= 2), jointly otherwise;
-   the reduced-size constant sweep and, in tier "q", pattern 1 use the joint / uniform vectors only *)
+   the sweep over the constants of ConstB \ ConstA uses the joint vectors (8 uniform + 8 staggered) and,
+   in tier "q", pattern 1 uses the 8 uniform vectors only *)
 AlSeq(tier, kid, n, p, c) ==
     LET nb == NBuf(kid, n)
     IN  IF p = 1 /\ tier = "q" THEN AlUniform(nb)
